@@ -11,6 +11,7 @@ Template directives (lines starting with `//@`):
       //@after <nth> `<needle>`
       //@loopentry <n>                      (following plain lines: proof text inserted at the start of loop n's body; no statement anchor)
       //@loopexit <n>                       (… inserted right after loop n)
+      //@nested <fn name> <ret name>        (following plain lines: contract of a fn item nested in the body)
       //@entry                              (following plain lines: proof text inserted at the start of the body; no anchor)
   //@end
 Everything else is copied through (prelude, spec functions, lemmas, impl headers).
@@ -102,6 +103,7 @@ def expand(unit, repo=None):
                 elif cur[0] == 'loop': ann['loops'][cur[1]] = {'iter': cur[2], 'inv': text}
                 elif cur[0] in ('before', 'after'): ann[cur[0]].append((cur[1], cur[2], text))
                 elif cur[0] == 'entry': ann['entry'] = text
+                elif cur[0] == 'nested': ann.setdefault('nested', []).append((cur[1], cur[2], text))
                 elif cur[0] in ('loopentry', 'loopexit'): ann.setdefault(cur[0], {})[cur[1]] = text
             i += 1
             while i < len(lines):
@@ -115,6 +117,7 @@ def expand(unit, repo=None):
                     if cmd == 'ret': ann['ret'] = arg
                     elif cmd == 'spec': cur = ('spec',)
                     elif cmd == 'entry': cur = ('entry',)
+                    elif cmd == 'nested': cur = ('nested', arg.split()[0], arg.split()[1])
                     elif cmd in ('loopentry', 'loopexit'): cur = (cmd, int(arg.split()[0]))
                     elif cmd == 'loop':
                         a = arg.split()
@@ -138,7 +141,7 @@ def expand(unit, repo=None):
             src_line = s.line_of(it.sig_start)
             # mark ghost vs code lines: lines that come from the annotation text are ghost
             ghost_texts = set()
-            for t in [ann.get('spec') or ''] + [v['inv'] for v in ann['loops'].values()] + [x[2] for x in ann['before'] + ann['after']] + [ann.get('entry') or ''] + list((ann.get('loopentry') or {}).values()) + list((ann.get('loopexit') or {}).values()):
+            for t in [ann.get('spec') or ''] + [v['inv'] for v in ann['loops'].values()] + [x[2] for x in ann['before'] + ann['after']] + [ann.get('entry') or ''] + [x[2] for x in ann.get('nested') or []] + list((ann.get('loopentry') or {}).values()) + list((ann.get('loopexit') or {}).values()):
                 for gl in t.split('\n'):
                     if gl.strip(): ghost_texts.add(gl.strip())
             for l in text.split('\n'):
